@@ -29,21 +29,39 @@ EXPLANATION = (
     "a jump target; NO_NEXT exactly on CPython's unconditional transfers; "
     "where HAS_ARGUMENT deviates from 'opcode number >= HAVE_ARGUMENT' the "
     "handler must not read the operand.  R16.3: jump targets are resolved "
-    "under has_known_jump() from the reader's offset, after the synthetic "
+    "under has_known_jump() from the reader's offset (offset_to_index[op.argval], "
+    "written inline, hoisted into a once-bound local or routed through the "
+    "operand slot, and read before the slot is overwritten), after the synthetic "
     "exception-table opcodes were inserted and the list was indexed; the "
     "synthetic SETUP_EXCEPT_311 gets its target when it is created.  R16.4: "
-    "the block-closing predicate uses no_next / does_jump / pops_block / "
-    "end-of-code / next-is-a-target as top-level disjuncts; compute_order adds "
+    "the block-closing predicate of _split_bytecode - written inline or as a "
+    "module-local helper with guard clauses / early returns, in both cases "
+    "read as one boolean function of its atomic tests and evaluated on every "
+    "truth assignment - is true whenever no_next / does_jump / pops_block / "
+    "end-of-code holds, whatever the other tests say, and can be true through "
+    "next-is-a-target when nothing else holds; compute_order (module-local "
+    "helpers it hands the per-block wiring to are inlined first) adds "
     "the fall-through edge exactly when the last instruction can fall through, "
     "plus first.target, last.target and last.block_target edges, looked up in "
-    "a first-instruction -> block map; order_nodes picks the minimum of (number "
+    "a first-instruction -> block map; order_nodes (helpers inlined likewise) "
+    "picks the minimum of (number "
     "of pending predecessors, id, node); _order_code runs disassembly, "
     "add_pop_block_targets and compute_order in that order on the same list.  "
     "R16.5: compute_order reads .target of every position of a block (first, "
     "middle, last) - the D17 condition.  R16.6: every block-setup instruction "
-    "is recognised as pushing a block and POP_BLOCK closes its basic block.  "
+    "is recognised as pushing a block (PUSHES_BLOCK, or an isinstance test - "
+    "against classes, a local tuple or a module constant - under which the "
+    "instruction is appended to the block stack) and POP_BLOCK, identified by "
+    "the isinstance facts that hold where .block_target is assigned (in "
+    "add_pop_block_targets or a module-local helper it calls, call-site facts "
+    "included), gets <innermost block>.target and closes its basic block.  "
     "R16.7: every class with a known-jump flag has the operand slots "
-    "_add_jump_targets writes.  R16.20 (rules/c16_pairing.py): a pass that "
+    "_add_jump_targets writes.  R16.8: every for-loop of a construction pass "
+    "over the instruction stream / exception table / block list - in the pass "
+    "itself or in a module-local helper the pass calls unconditionally from "
+    "its top level with the stream (a delegated phase) - runs to the end (no "
+    "break / return out of it); helpers called per element from inside a loop "
+    "are look-ups, not phases.  R16.20 (rules/c16_pairing.py): a pass that "
     "appends a *whole* block to another one and adds the result to "
     "processed_blocks (compute_order then builds no edges for it) is only "
     "right when the appended block is a single instruction; the instruction "
@@ -52,7 +70,8 @@ EXPLANATION = (
     "(_add_async_for_jump_back_targets: handler target of the exception-table "
     "range that starts at GET_ANEXT) and the host CPython 3.12 compiler as "
     "reference (-> END_ASYNC_FOR), and must satisfy one of the flag-helper "
-    "disjuncts of _split_bytecode's block-closing test.  R16.21: _process "
+    "tests that alone close a block in _split_bytecode (same formula as "
+    "R16.4).  R16.21: _process "
     "pairs the code objects of co_consts with DisassembledCode.children by "
     "position (one iterator over dis_code.children advanced exactly once per "
     "code constant, constants walked in co_consts order); a lookup keyed by "
@@ -73,6 +92,11 @@ ASSUMPTIONS = [
     "HAS_CONST/HAS_NAME/HAS_LOCAL/HAS_FREE/HAS_NARGS/HAS_JUNKNOWN have no "
     "consumer that affects the block graph other than does_jump() "
     "(HAS_JUNKNOWN) and are not compared with a reference",
+    "the atomic tests of the block-closing predicate (flag helpers, "
+    "`op.next is None`, `op.next in targets`, isinstance / version tests) are "
+    "side-effect free and are treated as independent truth values; a name "
+    "called as `f(..)` that is defined exactly once at module level and never "
+    "re-bound there denotes that def (helper inlining)",
     "R16.20: the host interpreter is CPython 3.12 and its compiler puts "
     "END_ASYNC_FOR at the handler of every GET_ANEXT range (checked on five "
     "async-for shapes each run); R16.21: pycnite.bytecode.dis_all appends one "
@@ -209,7 +233,7 @@ def r16_2(ctx):
   no_next = tab.bit("NO_NEXT")
   has_arg = tab.bit("HAS_ARGUMENT")
   methods, _ = O.vm_methods(ctx)
-  prefix = O.dispatch_prefix(ctx)
+  prefix = U.dispatch_prefix(ctx)
   reads_cache = {}
 
   def handler_reads(name):
